@@ -100,6 +100,13 @@ type syncM struct {
 	Hash   []byte
 	TS     int64
 	Blocks map[string][]byte // height -> hash, all heights the db holds
+	// wallet birthday (seconds) and birthday block
+	Birthday   int64
+	BBSet      bool
+	BBHeight   int32
+	BBHash     []byte
+	BBTS       int64
+	BBVerified bool
 }
 
 func (m *model) clone() *model {
